@@ -130,18 +130,4 @@ Section ObjSem.
   Lemma mem_str_names : forall fs k, mem_str k (map f_name fs) = existsb (fun f => str_eqb k (f_name f)) fs.
   Proof. induction fs as [|f fs IH]; intros k; simpl; auto. unfold mem_str in *. simpl. rewrite IH. reflexivity. Qed.
 
-  Lemma excluded_plain : forall names k,
-    mem_str [] names = false -> filter (fun n => negb (str_eqb n [])) names <> [] ->
-    excluded_by_names names k = mem_str k names.
-  Proof.
-    intros names k H1 H2. unfold excluded_by_names.
-    assert (E : filter (fun n => negb (str_eqb n [])) names = names).
-    { clear H2. induction names as [|n names IH]; simpl in *; auto.
-      unfold mem_str in H1. simpl in H1. apply orb_false_iff in H1. destruct H1 as [H1 H1'].
-      assert (X : str_eqb n [] = false).
-      { destruct (str_eqb n []) eqn:E; auto. apply str_eqb_eq in E. subst n. simpl in H1. discriminate. }
-      rewrite X. simpl. f_equal. apply IH. exact H1'. }
-    rewrite E in *. destruct names; [congruence | reflexivity].
-  Qed.
-
 End ObjSem.
